@@ -30,6 +30,7 @@ NAMESPACE = "Rpyc.Props.C09"
 GEN = ["Vinegar.lean"]
 DRIVERS = ["drv_vinegar"]
 KNOWN_SIG = "C09:class.__new__-requires-arguments"
+RELAY_SIG = "C09:relay-discloses-version"
 TRUSTED = [
     "modelled, not verified: CPython's data model as the receiver's environment oracle — `modname in sys.modules`, the "
     "effect of `__import__`, `getattr(module, name)`, `isinstance(cls, type)`, `issubclass(cls, BaseException)`, whether "
@@ -861,4 +862,17 @@ def known_probes(ctx):
             "surface as that class: the requester receives TypeError instead (cls.__new__(cls) fails in vinegar.load; "
             "_dispatch delivers that failure to the request) [reproduced: %s]"
             % (KNOWN_SIG, ", ".join(needing), ", ".join(hits) or "none"))
-    return [(KNOWN_SIG, bool(hits), text)]
+    out = [(KNOWN_SIG, bool(hits), text)]
+    # the second carried deviation: a relay that received from another major version passes its own version on
+    spec = {"cls": "builtins:ValueError", "args": "( S120 )", "kwargs": {}, "attrs": {}}
+    try:
+        res = oracle_exc2(spec, "TTFF", "FFF", "TFFF", "FFF", "direct", (), True)
+    except Exception as ex:  # noqa
+        res = ("probe crashed: %r" % (ex,), "?")
+    import rpyc.version
+    out.append((RELAY_SIG, bool(res and res[1] == RELAY_SIG),
+                "signature=%s a relaying peer with include_local_version off that received the exception from a peer on another "
+                "major version (%s) and raises it on with include_local_traceback on discloses its own version %s: the warning "
+                "vinegar.load appended to the traceback text travels on inside it [reproduced: %s]"
+                % (RELAY_SIG, vc.FOREIGN_VERSION, rpyc.version.version_string, "direct two-hop" if res and res[1] == RELAY_SIG else "no")))
+    return out
